@@ -11,6 +11,7 @@ import (
 	"os"
 	"runtime"
 	"strings"
+	"sync"
 	"time"
 
 	"github.com/fabiolb/fabio/config"
@@ -24,7 +25,9 @@ import (
 // process connects the real consul backend to the Consul HTTP API named in FABIO_VERIF_C01 (a JSON
 // document, see verifC01Cfg), runs the real watchBackend loop in a goroutine and then serves commands on
 // stdin: "dump" prints the canonical dump of route.GetTable() as one JSON line, "idle" prints whether the
-// watchBackend goroutine is parked in its select, "quit"/EOF exits.
+// watchBackend goroutine is parked in its select, "hold"/"release" arm and open a gate in front of the real
+// backend's Register (the table loop then stays busy inside one iteration for as long as the harness wants),
+// "state" prints where the table loop and the two watcher goroutines are, "quit"/EOF exits.
 // Nothing here changes behaviour of a normal fabio process.
 
 type verifC01Cfg struct {
@@ -36,6 +39,60 @@ type verifC01Cfg struct {
 	PollMS    int      `json:"poll_ms"`
 	Monitors  int      `json:"monitors"`
 	Debug     bool     `json:"debug"`
+	// registry.consul.register.addr of the child (Register is disabled, so only aliases - routes with a
+	// register=<name> option - are registered): "" and addresses without a port make the alias registration fail
+	SvcAddr string `json:"svcaddr"`
+}
+
+// verifC01Gate is registry.Default of the child: the real consul backend with a gate in front of Register.
+// While the gate is armed the table loop blocks on entry to Register - inside an iteration, after it took an
+// event - until the harness releases it. Everything else is the embedded real backend.
+type verifC01Gate struct {
+	registry.Backend
+	mu    sync.Mutex
+	cond  *sync.Cond
+	armed bool
+	held  bool
+}
+
+func (g *verifC01Gate) Register(services []string) error {
+	g.mu.Lock()
+	for g.armed {
+		g.held = true
+		g.cond.Wait()
+	}
+	g.held = false
+	g.mu.Unlock()
+	return g.Backend.Register(services)
+}
+
+func (g *verifC01Gate) arm(on bool) {
+	g.mu.Lock()
+	g.armed = on
+	g.cond.Broadcast()
+	g.mu.Unlock()
+}
+
+// verifC01Sending counts the watcher goroutines that are blocked handing their text to the table loop: state
+// "chan send", innermost frame a named function (not a closure) of package registry/consul, not on the stack of
+// the table loop itself. No function name is assumed.
+func verifC01Sending(stacks string) int {
+	n := 0
+	for _, g := range strings.Split(stacks, "\n\n") {
+		lines := strings.SplitN(g, "\n", 3)
+		if len(lines) < 2 || !strings.HasPrefix(lines[0], "goroutine ") || !strings.Contains(lines[0], "[chan send") {
+			continue
+		}
+		fn := lines[1]
+		if i := strings.LastIndex(fn, "("); i > 0 {
+			fn = fn[:i]
+		}
+		if strings.HasPrefix(fn, "github.com/fabiolb/fabio/registry/consul.") && !strings.Contains(fn, ".func") &&
+			!strings.Contains(g, "main.watchBackend(") {
+			n++
+		}
+	}
+	return n
 }
 
 // verifC01Idle reports whether the goroutine running watchBackend is parked in the select of watchBackend
@@ -83,13 +140,20 @@ func init() {
 	}
 	cc.ServiceMonitors = vc.Monitors
 	cc.PollInterval = time.Duration(vc.PollMS) * time.Millisecond
+	cc.ServiceAddr = vc.SvcAddr
+	cc.ServiceName = "fabio"
+	cc.CheckScheme = "http"
+	cc.CheckInterval = time.Second
+	cc.CheckTimeout = time.Second
 
 	be, err := consul.NewBackend(cc)
 	if err != nil {
 		fmt.Fprintln(os.Stderr, "verif c01: NewBackend:", err)
 		os.Exit(2)
 	}
-	registry.Default = be
+	gate := &verifC01Gate{Backend: be}
+	gate.cond = sync.NewCond(&gate.mu)
+	registry.Default = gate
 	first := make(chan bool)
 	go watchBackend(cfg, metrics.DiscardProvider{}, first)
 
@@ -108,6 +172,32 @@ func init() {
 			// is the table loop waiting for the next event? (goroutine of main.watchBackend blocked in its
 			// select) - lets the harness observe the table without sending another event through the loop
 			fmt.Fprintln(out, verifC01Idle())
+			out.Flush()
+		case "hold":
+			gate.arm(true)
+			fmt.Fprintln(out, "ok")
+			out.Flush()
+		case "release":
+			gate.arm(false)
+			fmt.Fprintln(out, "ok")
+			out.Flush()
+		case "state":
+			// loop: held (inside Register behind the gate) | idle (parked in the select of watchBackend) | busy;
+			// sending: number of watchers blocked handing their text to the table loop
+			buf := make([]byte, 1<<20)
+			stacks := string(buf[:runtime.Stack(buf, true)])
+			gate.mu.Lock()
+			held := gate.held
+			gate.mu.Unlock()
+			loop := "busy"
+			if held {
+				loop = "held"
+			} else if verifC01Idle() {
+				loop = "idle"
+			}
+			b, _ := json.Marshal(map[string]interface{}{"loop": loop, "sending": verifC01Sending(stacks)})
+			out.Write(b)
+			out.WriteByte('\n')
 			out.Flush()
 		case "quit":
 			os.Exit(0)
